@@ -61,16 +61,17 @@ func main() {
 			})
 		}
 		if e.Monitor != nil && *mon > 0 {
-			cnt := 0
+			cnt := map[string]int{} // per (property, key): a flood of one kind must not starve the others
 			budget := *mon
 			if e.MaxMonitor > 0 && budget > e.MaxMonitor {
 				budget = e.MaxMonitor
 			}
 			e.Monitor(r.Fork(), budget, func(v apps.Viol) {
-				if cnt < 20 {
+				k := v.Property + "|" + v.Key
+				if cnt[k] < 8 {
 					vs.Put(v)
 				}
-				cnt++
+				cnt[k]++
 			})
 		}
 	}
